@@ -1425,6 +1425,21 @@ Qed.
 Lemma ex_cv_pm1 h sb sm kT : cv_comps (ex_cv h sb sm kT) <> [] /\ Forall (fun p => snd p = 1 \/ snd p = -1) (cv_comps (ex_cv h sb sm kT)).
 Proof. split; [discriminate|]. unfold ex_cv; cbn [cv_comps]. constructor; [left; reflexivity|]. constructor; [right; reflexivity|]. constructor. Qed.
 
+Lemma ex_rmsd_centered :
+  let g := rmsd_grads Rops ex_pos [0%nat; 1%nat] (rmsd_best Rops ex_pos [0%nat; 1%nat] ex_refs [] (Some (0, 0, 0))) (Some (0, 0, 0)) in
+  norm2_sum Rops (vadd_list Rops g (fit_grads Rops (length [0%nat; 1%nat]) (Some (0, 0, 0)) g)) <> 0.
+Proof.
+  cbv zeta. cbn [rmsd_best best_copy].
+  assert (Hx : rmsd_value Rops ex_pos [0%nat; 1%nat] ex_refs (Some (0, 0, 0)) = 1 / 2).
+  { unfold rmsd_value, rmsd_diff, frame_pos. rewrite ex_cog2. unfold norm2_sum, tsum, ofnat, ex_refs.
+    cbn [map fold_right length ex_pos vsub_list]. unfold vnorm2, vdot, vsub, vadd. rs. change (IZR (Z.of_nat 2)) with 2.
+    match goal with |- sqrt ?e = _ => replace e with ((1 / 2) * (1 / 2)) by field end. apply sqrt_square. lra. }
+  unfold rmsd_grads. rewrite Hx. rs. assert (Rltb 0 (1 / 2) = true) as -> by (apply Rltb_true; lra).
+  unfold rmsd_diff, frame_pos. rewrite ex_cog2. unfold fit_grads, norm2_sum, tsum, ofnat, ex_refs, vsum.
+  cbn [map fold_right length ex_pos vsub_list vadd_list]. unfold vnorm2, vdot, vsub, vadd, vscale, vzero. rs. change (IZR (Z.of_nat 2)) with 2.
+  match goal with |- ?e <> 0 => replace e with (1 / 2) by field end. lra.
+Qed.
+
 (* ================================================================== statements of Properties_C07.v, verbatim *)
 Lemma thm_inverse_distance : forall (cell : option RV) (mass : nat -> R) (pos : RF) (g1 g2 : RG) (fc : R),
   gok mass g1 -> gok mass g2 -> disj g1 g2 ->
